@@ -124,28 +124,70 @@ def kseq(size_fw):
     return [4, 16, 64]
 
 
-def sph_area(proj, poly, f, K):
-    ring = [cart(proj.inverse(p, f)) for p in densify_smooth(poly, K)]
+_BUF = [0.0, 0.0]
+
+
+def sph_area(proj, poly, f, K, form=0):
+    if form == 1:
+        # the way a caller with a coordinate buffer does it: ONE list object, updated in place between the calls
+        ring = []
+        for p in densify_smooth(poly, K):
+            _BUF[0], _BUF[1] = p[0], p[1]
+            ring.append(cart(proj.inverse(_BUF, f)))
+            if _BUF[0] != p[0] or _BUF[1] != p[1]:
+                raise RuntimeError('inverse modified the coordinate list it was given')
+    else:
+        ring = [cart(proj.inverse(p, f)) for p in densify_smooth(poly, K)]
     return sp.ring_area(ring)
 
 
-def check_poly(acc, proj, poly, f, name, size_fw):
+def rejected_calls(proj, p, f):
+    """requests outside the statement's domain (no such face) made between two polygons; whatever they do, they must not change later results"""
+    n = 0
+    for ang, bad in ((math.radians(72.0), 12), (math.radians(-108.0), -13)):
+        # a valid request elsewhere on the same face (the point turned about the face centre), then the rejected one at the polygon's start
+        c, sn = math.cos(ang), math.sin(ang)
+        try:
+            proj.inverse((c * p[0] - sn * p[1], sn * p[0] + c * p[1]), f)
+        except Exception:
+            pass
+        try:
+            proj.inverse(p, bad)
+        except Exception:
+            n += 1
+    return n
+
+
+def check_poly(acc, proj, poly, f, name, size_fw, form=0, reject=False):
     acc.n['evaluations'] += 1
     acc.strata[name.split('_')[0].rstrip('0123456789')] += 1
-    case = {'poly': [list(p) for p in poly], 'face': f, 'size': size_fw}
+    case = {'poly': [list(p) for p in poly], 'face': f, 'size': size_fw, 'form': form, 'reject': reject}
     k = f'c14:f{f}:{name}'
     pa = planar_area(poly)
+    if reject:
+        acc.n['rejected_calls_between_polygons'] += rejected_calls(proj, poly[0], f)
+    if form:
+        acc.n['polygons_through_one_reused_list'] += 1
     try:
         ks = kseq(size_fw)
-        areas = [sph_area(proj, poly, f, K) for K in ks[:2]]
+        areas = [sph_area(proj, poly, f, K, form) for K in ks[:2]]
         lim = areas[1] + (areas[1] - areas[0]) / 15
         want = pa * SCALE
         if abs(abs(lim) / want - 1) > 1e-7:
-            areas.append(sph_area(proj, poly, f, ks[2]))
+            areas.append(sph_area(proj, poly, f, ks[2], form))
             lim = areas[2] + (areas[2] - areas[1]) / 15
     except Exception as e:
         acc.violation(k + ':raises', f'inverse raised {type(e).__name__}: {e}', case)
         return None
+    # every densified polygon is a region too: its area may differ from the limit only by the discretisation error, which is at most
+    # 0.0265/K^2 relative on the unchanged tree over the whole catalogue (measured; allowance 0.3/K^2) - the extrapolation from the last
+    # two K alone would forgive a first evaluation that is wrong because of what was called before it
+    for K, a in zip(ks, areas):
+        relk = abs(abs(a) / want - 1)
+        acc.maximum('discretisation_err_times_K2', relk * K * K, [f, name, K])
+        if relk > 1e-6 + 0.3 / (K * K):
+            acc.violation(k + ':area-at-K', f'{name} on face {f}: densified with {K} points per edge the spherical area is {abs(a)!r} vs planar area x constant {want!r} (rel {relk:.3g}, discretisation allowance {0.3 / (K * K):.3g})', case)
+            return None
     rel = abs(abs(lim) / want - 1)
     acc.maximum('area_ratio_rel_err', rel, [f, name])
     if rel > 1e-6:
@@ -201,8 +243,10 @@ def work(task):
     acc = common.Acc()
     f, items = task
     signs = set()
-    for name, poly, sz in items:
-        s = check_poly(acc, proj, poly, f, name, sz)
+    for idx, (name, poly, sz) in enumerate(items):
+        # every second polygon goes through one reused coordinate list; before two of every four polygons a request for a face that does
+        # not exist is made with the polygon's first vertex (a caller's slip that was caught and ignored)
+        s = check_poly(acc, proj, poly, f, name, sz, form=idx % 2, reject=(idx % 4) in (1, 2))
         if s is not None:
             signs.add(s)
     if len(signs) > 1:
@@ -223,7 +267,7 @@ def run(tier, t0):
     acc.sample({'face': 4, 'polygon': [list(p) for p in cat[len(cat) // 2][1]], 'name': cat[len(cat) // 2][0]})
     acc.sample({'constant': SCALE, 'meaning': '(4 pi / 12) / area of the face pentagon'})
     rule = (f'12 faces x {len(cat)} polygons: triangles, quads and thin triangles at sizes 1e-4..0.5 face widths centred on the face centre, on each of the 10 seam rays at 3 radii, '
-            'straddling and beyond each of the 5 edges, and inside each vertex (only polygons wholly inside the pentagon or a mirror triangle); plus fan triangles with one vertex exactly on the face centre, an edge midpoint, a pentagon vertex or a seam ray; edges densified at K, 4K(, 16K) and Richardson-extrapolated; '
+            'straddling and beyond each of the 5 edges, and inside each vertex (only polygons wholly inside the pentagon or a mirror triangle); plus fan triangles with one vertex exactly on the face centre, an edge midpoint, a pentagon vertex or a seam ray; edges densified at K, 4K(, 16K) and Richardson-extrapolated; every second polygon is passed through one coordinate list updated in place, and before half of the polygons a request for a non-existent face is made and its exception ignored; '
             'non-trivial = polygons whose area ratio met 1e-6')
     return common.finish(PID, LEVEL, tier, acc, t0, rule, [
         'spherical area by the signed spherical-excess formula in difference form on the unprojected polyline; discretisation error ~K^-2 extrapolated from the last two K',
@@ -235,5 +279,12 @@ def replay(case):
     acc = common.Acc()
     if not case.get('poly'):
         return [('c14:orientation', 're-run the check')]
-    check_poly(acc, _lib()(), [tuple(p) for p in case['poly']], case['face'], 'replay', case['size'])
+    proj = _lib()()
+    poly = [tuple(p) for p in case['poly']]
+    # the recorded polygon in every presentation, preceded by a polygon elsewhere on the face (the memo-free library does not care)
+    other = [(0.05, 0.02), (0.09, 0.02), (0.07, 0.06)]
+    for form in (0, 1):
+        for reject in (False, True):
+            check_poly(common.Acc(), proj, other, case['face'], 'warmup', 0.05)
+            check_poly(acc, proj, poly, case['face'], 'replay', case['size'], form, reject)
     return [(k, w) for k, w, _ in acc.violations]
